@@ -387,6 +387,20 @@ pub fn run(out: &mut Out, tier: &str, seed: u64, prop: &str) {
             }
         }
     }
+    // ---- corpus of minimised past failures / recorded findings, first ----------------------------
+    if prop == "C06" || prop == "C07" || prop == "C17" {
+        for line in std::fs::read_to_string("/verif/corpus/marker.txt").unwrap_or_default().lines() {
+            if line.starts_with('#') || line.is_empty() { continue; }
+            let (tag, rest) = line.split_once('\t').unwrap_or(("any", line));
+            if tag != "any" && tag != prop { continue; }
+            let text = crate::req::unescape(rest);
+            let pa = parse_case(out, &mut w, prop, "m", &text);
+            out.stat("corpus.cases");
+            if prop == "C07" && !pa.answer.starts_with("ok ") {
+                out.oracle_fail("C07", &format!("a marker derivable from the PEP 508 grammar is rejected: {}", pa.answer), serde_json::json!({"text": text, "class": "corpus"}));
+            }
+        }
+    }
     // ---- (2) derivations × layouts --------------------------------------------------------------
     let n = if big { 4000 } else { 700 };
     for _ in 0..n {
